@@ -69,15 +69,11 @@ def _axi_lane(conn, prop, tier, seed, findings):
         rep.findings = findings
         log = lambda msg: print("[axi4] %s" % msg, flush=True)      # noqa
         main, demo = axito.configs(tier)
-        # the faulty slave falls silent before accepting / answers what it accepted: every clause but the id
-        # of the forced response (listed finding, shown by the demonstrations with all clauses below)
-        stats = run_batches(AXI, rep, [main], AXI_INVS, ["Recovers"], log=log, spec_budget=0, total_budget=0)
+        # the faulty slave falls silent before accepting / answers what it accepted: every clause (the id of the forced
+        # response included since the repair of AXITimeout, known_findings: C11-axi-timeout-forced-response-without-id)
+        stats = run_batches(AXI, rep, [main], AXI_INVS + ["ForcedResponseId"], ["Recovers"], log=log, spec_budget=0, total_budget=0)
         nmain = len(stats)
-        fid = [x for x in demo if x[0].get("axi_forced_id")]
-        run_batches(AXI, rep, [[x] for x in fid], AXI_INVS + ["ForcedResponseId"], ["Recovers"], log=log,
-                    spec_budget=0, total_budget=0)
-        run_batches(AXI, rep, [[x] for x in demo if not x[0].get("axi_forced_id")], AXI_INVS, ["Recovers"], log=log,
-                    spec_budget=0, total_budget=0)
+        run_batches(AXI, rep, [[x] for x in demo], AXI_INVS, ["Recovers"], log=log, spec_budget=0, total_budget=0)
         per = []
         n = 0
         for spec, cfg, ev in _HarvestLoop.harvested:
